@@ -137,6 +137,40 @@ CHECKS = {
             'all four stages, each with its pool under a random schedule, chained through files; separable-cluster '
             'generation is input generation; the precondition check runs on the recorded draws.',
             TECH + ': end-to-end pipeline under seeded schedules with recorded randomness', '5 C18'),
+    'C09': ('exploration',
+            'The real statistics stage under the simulated kernel with reference cells spread over 1-3 files, three '
+            'encodings, rows_at_a_time 1..40, 1-6 workers, seeded schedules, raw or pre-normalised input, unlabelled cells, '
+            'one-cell clusters, planted exact CPM=1 entries; compared with a direct computation (threshold counts by exact '
+            'integer arithmetic) through the file\'s own tables; two partitions must agree; truncation and merging compared '
+            'with the model.',
+            'how cells are spread over files, chunks, workers, encodings and completion orders is decided by the simulator; '
+            'direct statistics model. Counts exact, sums to 1e-10 relative.',
+            TECH + ': seeded schedules and partitions of the statistics pool, direct-computation reference model', '5 C09'),
+    'C11': ('exploration',
+            'Statistics files written directly (cluster sizes from 1, zero-variance genes, identical clusters) through the '
+            'real reference-marker stage (exact/approximate penetrance, gene list or none) and the p-value-mask route, each '
+            'under two executions differing in worker count, memory budget and schedule; every (pair, gene) entry judged by an '
+            'independent Welch/Holm/penetrance model; transposes, both-direction exclusion and the rename relation checked.',
+            'worker count, memory budget, schedule (both routes) and the transposition pool are decided by the simulator; '
+            'independent Welch/Holm/penetrance oracle (scipy.stats.ttest_ind_from_stats + naive Holm). Entries within 1e-7 of '
+            'a threshold or with an undefined statistic are undecided (skipped, counted).',
+            TECH + ': seeded schedules over the marker pools, independent statistical reference model', '5 C11'),
+    'C12': ('exploration',
+            'Reference-marker tables (synthetic or from the real stage) through the real query-marker selection with query '
+            'gene subsets, targets and per-parent overrides, under two executions differing in worker count, large-parent '
+            'threshold and schedule (pool and manager dict); coverage census computed directly from the file\'s pair-major '
+            'arrays and the generator\'s tree.',
+            'worker count, large-parent threshold, schedule and manager-dict completion order are decided by the simulator; '
+            'coverage census from the marker file. genes_at_a_time fixed at 1.',
+            TECH + ': seeded schedules over the selection pool and manager, census oracle', '5 C12'),
+    'C16': ('fault_enumeration',
+            'validate_h5ad on generated files, run once cleanly (judged against a rounding / renaming model) and once per '
+            'parent-side write event with an I/O error injected at exactly that event: k is ENUMERATED over all write events '
+            'of the run (HDF5 opens for writing, dataset creations and writes, temp-file creations). Input byte-identical and '
+            'scratch empty at every failure point and on success. Complete per file; files are sampled.',
+            'parent-side I/O fault at the k-th file event: input must stay byte-identical at every failure point; scratch '
+            'life cycle; rounding / renaming model. Write events are seam events (not arbitrary instructions).',
+            TECH + ': exhaustive per-file I/O fault grid at the file seam, reference model of the rewrite', '5 C16'),
 }
 
 NOT_BUILT_REASON = 'check not built yet (work in progress; see DESIGN.md section 5 for the planned design)'
